@@ -109,11 +109,16 @@
       `ChainCoherent` chain without the code-span rule and without the image rule (the link rule at
       most once): text, newline, escape, any emphasis-like pairs, link (inline and all reference
       forms, nesting to any depth, any `max_nesting`), autolink, entity.
-      NOT YET COVERED: the image rule (`ParseLinkL2Part … 1 true`: the proof of `parseLinkL2_link` goes
-      through with the label start at `pos + 2`, except for ONE sub-case — an image whose look-ahead
-      failed, in front of a `[` that the outer image walk stepped over as a link TOKEN — which needs
-      the second label walk of that token recorded, i.e. `skipStep_records_link` extended by
-      `witness_summary`); the code-span rule (`BackL2`: `back_L2` needs the two caches to agree on
+      THIRD PART: the image rule is covered too (`Lemmas/MemoSafeLamImage.lean`: `parseLinkL2_core` for
+      either rule, `just_link_call` — the witness of a link TOKEN of the memo exposes its `parse_link`
+      call —, `parseLinkL2_image`): `parseInline_total_nocode` — UNCONDITIONALLY total for every
+      `ChainCoherent` chain without the code-span rule (links AND images); and code spans for contents
+      without two adjacent backticks: `parseInline_total_nodouble` — total for EVERY coherent chain, the
+      stock chain with strikethrough included, when `NoDoubleTick content` (single-backtick code spans
+      only: then no position is strictly inside a backtick run and `back_L2` applies).  Whole document
+      (`Lemmas/MemoSafeLamDoc.lean`): `doc_total_nocode`, `doc_total_nodouble`, `doc_total_src` (hypotheses on
+      the SOURCE only: no tab, no two adjacent backticks), `doc_total_stock` (below).
+      NOT YET COVERED: the code-span rule on contents WITH runs of two or more backticks (`BackL2`: `back_L2` needs the two caches to agree on
       `inside_failed.contains pos` — true at every position not strictly inside a backtick run
       (`inside_agree_of_not_interior`); at a position strictly inside a run (reached after a failed
       opener, or behind an escaped backtick) it is a fact about the HISTORY of the shared cache: the
@@ -147,6 +152,7 @@ import MdIt.Lemmas.MemoSafeRec
 import MdIt.Lemmas.MemoSafeWindow
 import MdIt.Lemmas.MemoSafeWindow2
 import MdIt.Lemmas.MemoSafeLamFinal
+import MdIt.Lemmas.MemoSafeLamDoc
 import MdIt.Props.InlineTotal
 
 namespace MdIt.Inline
@@ -254,6 +260,36 @@ example (n : Nat) (content : List Char) : ∃ cs, parseInline (linkCfg n) conten
     (by show (linkCfg 0).chain.count .link ≤ 1; decide)
     (mapOK_single content)
 
+/-! ## J'. the results of the third part -/
+
+/-- **C01, inline pass: `md.inline.parse` is total for every `ChainCoherent` chain without the code-span
+    rule** — links and images (each rule at most once), emphasis-like pairs, text, newline, escape,
+    autolink, entity; every `max_nesting`, reference map, `MapOK` content. -/
+theorem parseInline_total_coherent_nocode (cfg : Cfg) (hc : ChainCoherent cfg = true)
+    (hnb : RuleId.backticks ∉ cfg.chain)
+    (hone : cfg.chain.count .link ≤ 1 ∧ cfg.chain.count .image ≤ 1) {content : List Char}
+    {mapping : Srcmap} (hm : MapOK content mapping) : ∃ cs, parseInline cfg content mapping = .ok cs :=
+  parseInline_total_nocode cfg hc hnb hone hm
+
+/-- **C01, inline pass: `md.inline.parse` is total for EVERY `ChainCoherent` chain on contents without
+    two adjacent backticks** -/
+theorem parseInline_total_coherent_nodouble (cfg : Cfg) (hc : ChainCoherent cfg = true)
+    (hone : cfg.chain.count .link ≤ 1 ∧ cfg.chain.count .image ≤ 1) {content : List Char}
+    {mapping : Srcmap} (hm : MapOK content mapping) (hnd : NoDoubleTick content) :
+    ∃ cs, parseInline cfg content mapping = .ok cs :=
+  parseInline_total_nodouble cfg hc hone hm hnd
+
+-- the STOCK chain with strikethrough: every one-line content without "``" parses, whatever `max_nesting`
+example (n : Nat) (content : List Char) (hnd : NoDoubleTick content) :
+    ∃ cs, parseInline (stockCfg n) content [(0, 0)] = .ok cs :=
+  parseInline_total_coherent_nodouble (stockCfg n)
+    (by show ChainCoherent (stockCfg 0) = true; decide +kernel)
+    (by show (stockCfg 0).chain.count .link ≤ 1 ∧ (stockCfg 0).chain.count .image ≤ 1; decide)
+    (mapOK_single content) hnd
+
+example : NoDoubleTick "[a `b` ![c](d)](e) `f`".toList ∧ ¬ NoDoubleTick "a ``b`` c".toList := by
+  decide +kernel
+
 /-! ## executable versions, examples -/
 
 /-- executable `Laminar` -/
@@ -341,31 +377,80 @@ example : entrySafe (stockCfg 2) "[[[a](b)](c)](d) `[`".toList [(0, 0)] = true :
 example : entrySafe witnessCfg witness [(0, 0)] = false := by decide +kernel
 
 /-
-  OPEN after the second part.
+  OPEN after the third part.
 
-  PROVED: `parseInline_total_coherent_link` (coherent chains without code spans / images).
-  REMAINING for `parseInline_total` of ALL coherent chains — two per-rule statements, to be plugged into
-  `parseInline_total_of_nestHyps` (everything else — top frame, nested induction, flat rules, emphasis,
-  link — is done and generic):
-   (1) `ParseLinkL2Part cfg B src Mtop 1 true` (image rule).  Copy of `parseLinkL2_link` with label start
-       `pos + 2`, `en = true` (`pwalk_below`, `pwalk_en`, `walk_below_bracket` are already stated for both
-       nesting flags).  Missing piece: when the image look-ahead FAILED and the `[` at `pos + 1` is a link
-       TOKEN of the memo (possible only inside an image label), the second label walk of the image needs
-       the token's own second label walk recorded: extend `skipStep_records_link` / `BracketPost` by the
-       second-label clause of `witness_summary`.
-   (2) `BackL2 cfg BInv src Mtop` (code spans), for `B := BInv` (`Lemmas/MemoSafeLamBack.lean`,
-       `backOK_BInv`, `BInv.empty`).  `back_L2` proves it given
-       `st0.backticks.insideFailed.contains pos = s.backticks.insideFailed.contains pos`; free unless `pos`
-       is strictly inside a backtick run.  Needed: an invariant of the SHARED code-span cache along the
-       run — "every position the tokenizer or a label walk stops at that is strictly inside a backtick
-       run is in `inside_failed`" (the run start was tried first, with the same cache) — threaded like
-       `TopInv` / `NF`; plus `NoCut` of the top `pos_max` (`trimSrc` cuts only blanks).
-  Then `doc_total` for tab-free / NoSplitTab sources: `doc_total_of_inline` (`Props/InlineTotal.lean`) with
-  `Pipeline.doc_placeholder_tables` (every placeholder has a `MapOK` table) — for the chains covered
-  today this composition only needs `Placeholders`-weakening as in `doc_total_of_memoSafe`.
-
-  The first part's route (laminarity, `entrySafe_of_coherent`) is superseded: `entrySafe` itself follows
-  from totality of the guarded run only through `Closed` at entries, which the new proof never needs.
+  PROVED: `parseInline_total_coherent_nocode` (every coherent chain without code spans, images included),
+  `parseInline_total_coherent_nodouble` (EVERY coherent chain on contents without two adjacent
+  backticks), `doc_total_nocode`, `doc_total_nodouble`.
+  REMAINING for `parseInline_total (hc : ChainCoherent cfg = true) (hm : MapOK c m)`: ONE member of
+  `NestHyps` — `BackL2 cfg BInv src Mtop` for contents WITH runs of two or more backticks.  `back_L2`
+  (`Lemmas/MemoSafeLamBack.lean`) proves it from
+      st0.backticks.insideFailed.contains pos = s.backticks.insideFailed.contains pos
+  between the witness state and the nested real state; `inside_failed` is part of the MEANING of the
+  rule (`back_L2_needs_inside`), so this is a fact about the run.  What gives it (all three hold in 5
+  million brute-force runs, checks K1–K3 of `/verif/work/w9-memo/Brute.lean`):
+   (K2) state invariant on (memo, cache): every unit memo entry `p ↦ p+1` with backticks at `p`, `p+1` has
+        `p+1` in the CURRENT `inside_failed` — inductive: the cache only grows
+        (`ruleBackticks_inside_mono`), and the step that makes the entry marks `p+1`
+        (`Lemmas/MemoSafeLamBack2.lean` when present: `back_decline_marks`, with run-complete marks
+        `InsideFull`, preserved under `NoCut` of the `pos_max` of the call — so `BackOK` needs a `NoCut`
+        premise, i.e. `Lemmas/MemoSafeLamTop.lean` / `MemoSafeLamNest.lean` re-threaded in copies);
+   (K1) every state (look-ahead memo miss or real) whose position `k` is strictly inside a backtick run has
+        `k` in `inside_failed` unless the backtick at `k-1` is escaped: the state came from the entry /
+        token that ENDS at `k`; no token but the unit step at a backtick and the escape `\`` ends strictly
+        inside a run (`MemoSafeLamBack2.lean`, part C); needs `Just`, `TopInv`, `NF` extended by the
+        position fact "`pos` is a walk start or the end of a memo entry / of the previous real token";
+   (K3) an escape landing `p ↦ p+2` (`\`` followed by a backtick) has `p+2` NOT in `inside_failed`: no
+        rule call ever happens at the escaped backtick `p+1`.  In nested frames this is the memo path;
+        in the TOP frame it needs that the real tokenizer never stops at an escaped character — a
+        parity argument along the run of backslashes (both the real tokenizer and every walk enter a
+        backslash run at its first character), i.e. flat-rule tiling consistency of the top frame,
+        which the present architecture does not otherwise need.
+  With (K1), (K2) alone: the theorem for contents without backslash-backtick-backtick.
+  `doc_total` for the unconditional theorem is then `doc_total_nodouble` without its last hypothesis.
 -/
 
 end MdIt.Inline
+
+/-! ## whole document -/
+
+namespace MdIt.Pipeline
+open MdIt
+
+-- the stock configuration with strikethrough (`exCfg`): coherent, link / image once each
+example : Inline.ChainCoherent ((exCfg false 100).inlineCfg []) = true ∧
+    (exCfg false 100).inlineChain.count .link ≤ 1 ∧ (exCfg false 100).inlineChain.count .image ≤ 1 := by
+  decide +kernel
+
+/-- a document for the example: block quote, list, nested image / link labels, emphasis,
+    strikethrough, a single-backtick code span, a reference definition -/
+def memoDoc : List Char := "> ![a [b](c)](d) [x]\n\n- *e* ~~s~~ [f `g`](h)\n\n[x]: /u".toList
+
+/-- **`doc_total_nodouble` on the stock chain with strikethrough**: `md.parse` / `render` / `xrender`
+    return, by the THEOREM (the inline runs are not evaluated: only the block pass is, for the two
+    hypotheses on the paragraph contents and tables) -/
+example : (∃ t, parseDoc (exCfg false 100) memoDoc = .ok t) ∧
+    ∀ x, ∃ html, renderDoc x (exCfg false 100) memoDoc = .ok html :=
+  doc_total_nodouble (exCfg false 100) memoDoc (by decide +kernel) (by decide +kernel) (by decide +kernel)
+    (by decide +kernel) (noSplitTab_of_check _ _ (by decide +kernel))
+    (docNoDoubleTick_of_check _ _ (by decide +kernel))
+
+/-- **C01 for the STOCK configuration with strikethrough** (`exCfg`: CommonMark block and inline chains,
+    `*`, `_`, `~~`), any `max_nesting`, sourcepos on or off: `md.parse(src)` returns a tree and `render` /
+    `xrender` return a string for EVERY source without tab and without two adjacent backticks, within
+    the `i32` size bound — no evaluation, no hypothesis on the run. -/
+theorem doc_total_stock (sp : Bool) (mn : Nat) (src : List Char)
+    (hsmall : 4 * Lines.byteLen src + 8 < 2147483648) (htab : '\t' ∉ src)
+    (hnd : Inline.NoDoubleTick src) :
+    (∃ t, parseDoc (exCfg sp mn) src = .ok t) ∧ ∀ x, ∃ html, renderDoc x (exCfg sp mn) src = .ok html :=
+  doc_total_src (exCfg sp mn) src
+    (by show Inline.ChainCoherent ((exCfg false 0).inlineCfg []) = true; decide +kernel)
+    (by show (exCfg false 0).inlineChain.count .link ≤ 1 ∧ (exCfg false 0).inlineChain.count .image ≤ 1
+        decide +kernel)
+    hsmall (by show (exCfg false 0).hasPara = true; decide +kernel) htab hnd
+
+example : (∃ t, parseDoc (exCfg true 100) memoDoc = .ok t) ∧
+    ∀ x, ∃ html, renderDoc x (exCfg true 100) memoDoc = .ok html :=
+  doc_total_stock true 100 memoDoc (by decide +kernel) (by decide +kernel) (by decide +kernel)
+
+end MdIt.Pipeline
